@@ -1147,6 +1147,7 @@ func presRoundTrips(c *Ctx, label string, m protoreflect.Message, fd protoreflec
 			c.PropFail("C11", fmt.Sprintf("panic during round trip: %v", r), label)
 		}
 	}()
+	presCodecCase(c, m)
 	b, err := proto.MarshalOptions{AllowPartial: true, Deterministic: true}.Marshal(m.Interface())
 	if err != nil {
 		c.Stat("rt_binary_marshal_err")
@@ -1203,6 +1204,52 @@ func presRoundTrips(c *Ctx, label string, m protoreflect.Message, fd protoreflec
 		}
 		c.Stat("rt_text")
 	}
+}
+
+// presCodecCase: Has on the canonical value (PresenceCodec.pc_has over the message codec model of
+// C03) against Has of the implementation for every field of the message type, and the numbers
+// of the top-level wire fields of Marshal(m) against the model's pc_wire.
+//   chas <schema id> <field numbers> <canonical value tokens...> | <has bits> <wire field numbers>
+func presCodecCase(c *Ctx, m protoreflect.Message) {
+	md := m.Descriptor()
+	if len(m.GetUnknown()) > 0 || msgReachesMessageSet(md, map[protoreflect.FullName]bool{}) {
+		return
+	}
+	b, err := proto.MarshalOptions{AllowPartial: true, Deterministic: true}.Marshal(m.Interface())
+	if err != nil {
+		return
+	}
+	id := msgSchemaOf(c, md)
+	var fds []protoreflect.FieldDescriptor
+	for i := 0; i < md.Fields().Len(); i++ {
+		fds = append(fds, md.Fields().Get(i))
+	}
+	for _, x := range msgExtensionsOf(md) {
+		fds = append(fds, x)
+	}
+	var nums []string
+	var bits strings.Builder
+	for _, fd := range fds {
+		nums = append(nums, HexN(uint64(fd.Number())))
+		bits.WriteString(Tok(m.Has(fd)))
+	}
+	var wire []string
+	for rest := b; len(rest) > 0; {
+		n, _, l := protowire.ConsumeField(rest)
+		if l < 0 {
+			c.PropFail("C11", "Marshal output does not scan", HexB(b))
+			return
+		}
+		wire = append(wire, HexN(uint64(n)))
+		rest = rest[l:]
+	}
+	w := "-"
+	if len(wire) > 0 {
+		w = strings.Join(wire, ",")
+	}
+	ins := append([]string{id, strings.Join(nums, ",")}, msgDump(m)...)
+	c.Case("pres", "chas", ins, []string{bits.String(), w})
+	c.Stat("chas")
 }
 
 func presFlavour(mt protoreflect.MessageType) string {
